@@ -1,5 +1,6 @@
 import ScyllaVerif.Model.Util
 import ScyllaVerif.Model.Tablets
+import ScyllaVerif.Model.TabletsRefresh
 /-! Line-protocol driver for C15.
 
 * `tab <op>;<op>;…` — one history on a fresh `VerifTablets` (one `TableTablets`, one `TabletsInfo`, a node set):
@@ -14,11 +15,17 @@ import ScyllaVerif.Model.Tablets
     `M<ks>:<0|1>:<t>+<t>&…/<removed>/<recreated>`   `TabletsInfo::perform_maintenance`
     `T`                           dump of every table of the `TabletsInfo`, sorted
     `Q<ks>.<table>:<token>`       `tablets_for_table(..).replicas_for_token(..)`
+* `cs <op>;<op>;…` — one history on a real `ClusterState` (tablet keyspace `k0` with tables `t0`, `t1`):
+    `P<peer>,<peer>…`             first: `ClusterState::new`; later: a metadata refresh (`new_updated`); a peer is
+                                  `<id>[@<dc>[/<rack>]]`, its address is its position in the list → `P<ids whose Node object was kept>`
+    `L<t>:<first>:<last>:<reps>`  `ClusterState::update_tablets` for table `t<t>`
+    `s<t>:<lo>:<hi>`              `replica_locator().replicas_for_token` for every token of `lo..=hi`, joined by `/`
+    `d<t>:<token>@<dc>`           the same restricted to a datacenter
 * `payload <hex>` — `RawTablet::from_custom_payload` on the cell bytes.
 * `exh <alphabet> <len> <i>,<j>,…` — digest of every history of `len` more operations of the alphabet after the prefix.
 -/
 namespace ScyllaVerif.Drive.C15
-open ScyllaVerif.Util ScyllaVerif.Tablets
+open ScyllaVerif.Util ScyllaVerif.Tablets ScyllaVerif.TabletsRefresh
 
 structure World where
   table : Table
@@ -276,9 +283,107 @@ def runPayload (arg : String) : String :=
       s!"ok {f}:{l}:{r}"
     | .error e => "err " ++ showPayloadErr e
 
+/-! ### `cs`: refresh histories on the cluster state -/
+
+def parsePeer (idx : Nat) (s : String) : Option Peer :=
+  match s.splitOn "@" with
+  | [a] => a.toNat?.map fun id => ⟨id, none, none, idx, false⟩
+  | [a, loc] =>
+    match a.toNat?, loc.splitOn "/" with
+    | some id, [dc] => some ⟨id, some dc, none, idx, false⟩
+    | some id, [dc, rack] => some ⟨id, some dc, some rack, idx, false⟩
+    | _, _ => none
+  | _ => none
+
+def parsePeers (s : String) : Option (List Peer) :=
+  if s == "" then none else
+  let parts := s.splitOn ","
+  let rec go (idx : Nat) : List String → Option (List Peer)
+    | [] => some []
+    | x :: rest =>
+      match parsePeer idx x, go (idx + 1) rest with
+      | some p, some ps => if ps.any (fun q => q.hostId == p.hostId) then none else some (p :: ps)
+      | _, _ => none
+  go 0 parts
+
+def insertNat (x : Nat) : List Nat → List Nat
+  | [] => [x]
+  | y :: ys => if x ≤ y then x :: y :: ys else y :: insertNat x ys
+
+def csKeyspaces : List (String × Bool × List String) := [("k0", true, ["t0", "t1"])]
+
+def csTable (cs : CState) (t : String) : Option (List Tablet) :=
+  if t == "0" || t == "1" then (alGet ("k0", "t" ++ t) cs.info.tables).map (·.tablets) else none
+
+def csScan (xs : List Tablet) : Nat → Int → List String
+  | 0, _ => []
+  | n + 1, tok => showReps ((replicasForToken xs (tokenNew tok)).getD []) :: csScan xs n (tok + 1)
+
+def csOp (st : Option CState) (op : String) : Option (CState × String) :=
+  match splitOp op with
+  | none => none
+  | some (c, arg) =>
+    if c == 'P' then
+      match parsePeers arg with
+      | none => none
+      | some peers =>
+        let cs := st.getD CState.init
+        -- the hook's nodes are pool-less: they read as not enabled, and the host filter rejects every peer
+        let old : Known := cs.known.map fun e => (e.1, { e.2 with enabled := false })
+        let cs' := refresh { cs with known := old } peers csKeyspaces
+        let kept := cs'.known.foldl (fun acc e =>
+          match alGet e.1 old with
+          | some o => if o.node == e.2.node then insertNat e.1 acc else acc
+          | none => acc) []
+        some (cs', "P" ++ natList kept)
+    else match st with
+    | none => none
+    | some cs =>
+      if c == 'L' then
+        match arg.splitOn ":" with
+        | [t, f, l, reps] =>
+          match csTable cs t, f.toInt?, l.toInt?, parseList "," parseRep reps with
+          | some _, some f, some l, some reps =>
+            if tokenNew f > tokenNew l then none else
+            let (cs', ok) := learn cs ("k0", "t" ++ t) (tokenNew f) (tokenNew l) reps
+            some (cs', if ok then "L" else "panic")
+          | _, _, _, _ => none
+        | _ => none
+      else if c == 's' then
+        match arg.splitOn ":" with
+        | [t, lo, hi] =>
+          match csTable cs t, lo.toInt?, hi.toInt? with
+          | some xs, some lo, some hi =>
+            if lo ≤ hi ∧ hi - lo ≤ 64 then some (cs, "/".intercalate (csScan xs (hi - lo + 1).toNat lo)) else none
+          | _, _, _ => none
+        | _ => none
+      else if c == 'd' then
+        match arg.splitOn "@" with
+        | [a, dc] =>
+          match a.splitOn ":" with
+          | [t, tok] =>
+            match csTable cs t, tok.toInt? with
+            | some xs, some tok => some (cs, showReps ((dcReplicasForToken xs (tokenNew tok) dc).getD []))
+            | _, _ => none
+          | _ => none
+        | _ => none
+      else none
+
+def runCs (ops : List String) : String :=
+  let rec go (st : Option CState) (acc : List String) : List String → Option (List String)
+    | [] => some acc.reverse
+    | op :: rest =>
+      match csOp st op with
+      | none => none
+      | some (cs, out) => go (some cs) (out :: acc) rest
+  match go none [] ops with
+  | none => "bad-case"
+  | some outs => ";".intercalate outs
+
 def run (case _impl : String) : String :=
   match words case with
   | ["tab", ops] => runTab ((ops.splitOn ";").filter (· ≠ ""))
+  | ["cs", ops] => runCs ((ops.splitOn ";").filter (· ≠ ""))
   | ["payload", arg] => runPayload arg
   | ["exh", alpha, depth, pre] =>
     match depth.toNat?, parseNatList pre with
